@@ -264,6 +264,7 @@ func checkC10(p *Program, r *Reporter) {
 			}
 		}
 	}
+	encryptsFreshMemory(p, r)
 	// ContentProtection appends in LiveMPD are dominated by !PreEncrypted
 	for _, b := range live.Blocks {
 		for _, in := range b.Instrs {
@@ -283,6 +284,35 @@ func checkC10(p *Program, r *Reporter) {
 			r.Decide(okGuard, "E5-ENCGUARD", shortFn(live), "store:ContentProtections", p.pos(st.Pos()), "dominated by the pre-encrypted test",
 				"ContentProtection is announced without the pre-encrypted test: a DRM request on a pre-encrypted asset is not refused", nil)
 		}
+	}
+}
+
+// encryptsFreshMemory: in-place fragment encryption must not reach bytes that server-lifetime state keeps referencing.
+func encryptsFreshMemory(p *Program, r *Reporter) {
+	r.Rule("E2-ENCRYPT-FRESH", "in-place fragment encryption never writes bytes that server-lifetime state still references (cached or pooled segment data)", 1)
+	e := sharedE2(p)
+	n := 0
+	for _, fn := range livesimFuncs(p) {
+		for _, b := range fn.Blocks {
+			for _, in := range b.Instrs {
+				c, ok := in.(*ssa.Call)
+				if !ok || c.Call.StaticCallee() == nil || c.Call.StaticCallee().String() != "github.com/Eyevinn/mp4ff/mp4.EncryptFragment" {
+					continue
+				}
+				n++
+				bad := ""
+				for _, a := range e.accesses {
+					if a.instr == ssa.Instruction(c) && a.write {
+						bad = a.field
+					}
+				}
+				r.Decide(bad == "", "E2-ENCRYPT-FRESH", shortFn(fn), "call:EncryptFragment", p.pos(c.Pos()), "the fragment's sample data is request-local (read or decoded for this request)",
+					"the fragment encrypted in place aliases bytes held by server state "+bad+": ciphertext is left in the shared copy and later clear or DRM responses for the same segment are wrong", nil)
+			}
+		}
+	}
+	if n == 0 {
+		r.Broken("no EncryptFragment call found")
 	}
 }
 
